@@ -1,5 +1,6 @@
 import Clikit.Lemmas.Wrap
 import Clikit.Lemmas.Table
+import Clikit.Model.TableFmt
 /-!
 # C14 - tables render as a rectangle within the terminal and keep every cell's text
 
@@ -276,6 +277,82 @@ theorem cell_text_decided (share : Nat → Nat → Nat → Nat) (st : TableStyle
   obtain ⟨hf, _, _, _⟩ := (wf_decides st given t width indent).1 h
   obtain ⟨outs, h1, h2, _⟩ := layout_spec share st t width indent hf
   exact ⟨outs, h1, h2, fun i j hj => cell_text_preserved share st t width indent hf outs h1 i j hj⟩
+
+/-! ### cells with style tags, on an I/O whose formatter changes between renderings -/
+
+/-- the table of the visible cells has the shape of the table: same number of columns, header or not -/
+theorem visibleTable_shape (rv : Clikit.Markup.Resolver) (t v : Table) (hv : visibleTable rv t = .ok v) :
+    v.n = t.n ∧ v.header.isSome = t.header.isSome := by
+  unfold visibleTable at hv
+  cases hh : t.header with
+  | none =>
+    rw [hh] at hv
+    simp only at hv
+    split at hv
+    · cases hv
+    · cases hv; exact ⟨rfl, rfl⟩
+  | some h =>
+    rw [hh] at hv
+    simp only at hv
+    split at hv
+    · cases hv
+    · split at hv
+      · cases hv
+      · cases hv; exact ⟨rfl, rfl⟩
+
+/-- the hypotheses of the rendering theorems do not depend on the cells: whatever the formatter makes of
+the tags, they are those of the table as given -/
+theorem wfB_visible (st : TableStyle) (given : List Nat) (rv : Clikit.Markup.Resolver) (t v : Table)
+    (width indent : Nat) (hv : visibleTable rv t = .ok v) :
+    wfB st given v width indent = wfB st given t width indent := by
+  obtain ⟨h1, h2⟩ := visibleTable_shape rv t v hv
+  unfold wfB feasibleB
+  rw [h1, h2]
+
+/-- **`render_decided_styles`**.  A table whose cells contain style tags, rendered on an I/O whose formatter
+resolves tags by `rv` - ANY resolver: the default style set, one a style was added to, another formatter
+altogether.  If the formatter can remove the format of every cell (`visibleTable`: tags properly nested) and
+the width is feasible for the table, rendering succeeds, every line fits the terminal, and with a non-blank
+right border all lines have one width: the rectangle is that of the cells as THIS formatter shows them. -/
+theorem render_decided_styles (share : Nat → Nat → Nat → Nat) (st : TableStyle) (given : List Nat)
+    (rv : Clikit.Markup.Resolver) (t v : Table) (width indent : Nat)
+    (hv : visibleTable rv t = .ok v) (h : wfB st given t width indent = true) :
+    ∃ lines, renderFmt share st given rv t width indent = .ok lines ∧
+      (∀ l ∈ lines, l.length ≤ width) ∧
+      (rightSolidB st = true →
+        ∃ outs, layout share st v width indent = .ok outs ∧ tableWidth st indent outs ≤ width ∧
+          ∀ l ∈ lines, l.length = tableWidth st indent outs) := by
+  rw [← wfB_visible st given rv t v width indent hv] at h
+  obtain ⟨lines, hr, h2, h3⟩ := render_decided share st given v width indent h
+  refine ⟨lines, ?_, h2, h3⟩
+  unfold renderFmt
+  rw [hv]
+  exact hr
+
+/-- **`render_history_styles`**.  ONE table rendered again and again on ONE I/O whose formatter's style set is
+changed in between (`rvs`: the resolver at the time of each rendering - `io.formatter.add_style`,
+`io.set_formatter`): EVERY rendering of the history is a rectangle within the terminal.  (In the model a
+rendering is a function of the table and of the formatter as it is now; that the code keeps nothing measured
+under an earlier style set is what the correspondence compares.) -/
+theorem render_history_styles (share : Nat → Nat → Nat → Nat) (st : TableStyle) (given : List Nat)
+    (t : Table) (width indent : Nat) (rvs : List Clikit.Markup.Resolver)
+    (hv : ∀ rv ∈ rvs, ∃ v, visibleTable rv t = .ok v) (h : wfB st given t width indent = true) :
+    ∀ r ∈ renderHistory share st given t width indent rvs,
+      ∃ lines, r = .ok lines ∧ (∀ l ∈ lines, l.length ≤ width) ∧
+        (rightSolidB st = true → ∃ W, W ≤ width ∧ ∀ l ∈ lines, l.length = W) := by
+  intro r hr
+  unfold renderHistory at hr
+  obtain ⟨rv, hrv, rfl⟩ := List.mem_map.mp hr
+  obtain ⟨v, hvv⟩ := hv rv hrv
+  obtain ⟨lines, h1, h2, h3⟩ := render_decided_styles share st given rv t v width indent hvv h
+  refine ⟨lines, h1, h2, ?_⟩
+  intro hs
+  obtain ⟨outs, _, hW, hall⟩ := h3 hs
+  exact ⟨_, hW, hall⟩
+
+/-- non-vacuity: `<hl>` is text for a formatter that does not know it and takes no room once it does -/
+example : (visibleCell (knownResolver []) "<hl>ab</hl>".toList).toOption = some "<hl>ab</hl>".toList ∧
+    (visibleCell (knownResolver ["hl".toList]) "<hl>ab</hl>".toList).toOption = some "ab".toList := by decide
 
 /-! ### non-vacuity -/
 
